@@ -137,6 +137,10 @@ _NONASCII = ["ключ", "鍵", "clé", "schlüssel", "🔑"]
 
 def key_of(k, ascii_only=False):
     """Key universe: index -> str (ASCII / non-ASCII) or bytes."""
+    if k == 1:
+        return ""  # the empty text key and (k == 6) the empty bytes key are keys like any other
+    if k == 6:
+        return b""
     m = k % 5
     if m == 0:
         return b"k%d" % k
